@@ -2,7 +2,7 @@
     implementation's observation is compared with the model ([m_ok]), checked
     against the executable spec ([s_ok]) and classified ([cls]). *)
 From Coq Require Import String Ascii List Bool Arith NArith ZArith.
-From Raven Require Import Base.GoStr Base.GoStrB64 Spec.Json Model.Auth Spec.AuthSpec.
+From Raven Require Import Base.GoStr Base.GoStrB64 Base.GoStrJson Spec.Json Model.Auth Spec.AuthSpec.
 Import ListNotations.
 
 Definition reply_eqb (a b : reply) : bool :=
@@ -33,14 +33,14 @@ Definition out_eqb (b : outcome) (m obs : auth_out) : bool :=
   && (is_refused b || lstr_eqb (sent m) (sent obs))
   && orow_eqb (bound m) (bound obs).
 
+(** 0 = no class; 3 = finding class login_tokens; 9 = outside the stated
+    domain (address or password not valid UTF-8: encoding/json substitutes U+FFFD) *)
 Definition finding_code (f : option finding) : nat :=
   match f with
   | None => 0
-  | Some F_json_meta => 1
-  | Some F_multi_at => 2
   | Some F_login_tokens => 3
-  | Some F_sasl_reply_injection => 4
   end.
+Definition domain_code (d u p : str) : nat := if in_domain d u p then 0 else 9.
 
 Definition res := (bool * bool * nat)%type.
 
@@ -59,14 +59,15 @@ Definition dcase_eval (c : dcase) : res :=
   let m := authenticate_user (dc_d c) (dc_u c) (dc_p c) (dc_b c) (dc_ens c) (dc_init c) in
   (out_eqb (dc_b c) m (dc_obs c),
    imap_spec_b (dc_d c) (dc_u c) (dc_p c) (accepted (dc_b c)) (dc_obs c),
-   finding_code (classify_cred (dc_d c) (dc_u c) (dc_p c))).
+   domain_code (dc_d c) (dc_u c) (dc_p c)).
 
 (** ExtractUsername / GetUserDomain *)
 Record icase := mk_icase { ic_d : str; ic_u : str; ic_row : str * str }.
 Definition icase_eval (c : icase) : res :=
   (pair_eqb (extract_username (ic_u c), get_user_domain (ic_d c) (ic_u c)) (ic_row c),
-   is_nil (ic_d c) || store_of_b (address_of (ic_d c) (ic_u c)) (ic_row c),
-   if Nat.leb 2 (count_byte (ic_u c) AT) then 2 else 0).
+   (* user names with more than one '@' never reach these functions: refused before *)
+   is_nil (ic_d c) || multi_at (ic_u c) || store_of_b (address_of (ic_d c) (ic_u c)) (ic_row c),
+   0).
 
 (** safety part of the spec when the generator does not know intended
     credentials (malformed stream): access only after a 200 *)
@@ -98,7 +99,7 @@ Definition wcase_eval (c : wcase) : res :=
    | Some (fu, fp, u, p) =>
        match classify_login fu fp u p with
        | Some f => finding_code (Some f)
-       | None => finding_code (classify_cred (wc_d c) u p)
+       | None => domain_code (wc_d c) u p
        end
    | None => 0
    end).
@@ -119,7 +120,7 @@ Definition pcase_eval (c : pcase) : res :=
    | None => safety_b (accepted (pc_b c)) (pc_obs c)
    end && no_tls_b (pc_tls c) (pc_obs c),
    match pc_intended c with
-   | Some (u, p) => finding_code (classify_cred (pc_d c) u p)
+   | Some (u, p) => domain_code (pc_d c) u p
    | None => 0
    end).
 
@@ -138,4 +139,7 @@ Definition scase_eval (c : scase) : res :=
    && (is_refused (sc_b c) || lstr_eqb (s_sent m) (sc_bodies c))
    && match sc_intended c with Some t => otriple_eqb (sasl_decoded (sc_raw c)) (Some t) | None => true end,
    sasl_spec_b (sc_domain c) (sc_raw c) (accepted (sc_b c)) (sc_bodies c) (sc_wrote c),
-   finding_code (classify_sasl (sc_domain c) (sc_raw c))).
+   match sasl_decoded (sc_raw c) with
+   | Some (_, u, p) => domain_code (sc_domain c) u p
+   | None => 0
+   end).
